@@ -80,6 +80,8 @@ type roundOut struct {
 	HeteroPairs     map[string]int     `json:"hetero_pairs"`
 	Burst           []burstKindOut     `json:"burst,omitempty"`
 	Construct       []constructOut     `json:"construct,omitempty"`
+	GoroutinesAfter int                `json:"goroutines_after"`
+	FDsAfter        int                `json:"fds_after"`
 	WarmDoubleClose int                `json:"warm_double_close"`
 	DoubleCloseOps  int                `json:"double_close_ops"`
 	EncOverlapPairs int                `json:"enc_overlap_pairs"`
@@ -911,6 +913,7 @@ func runRound(w *world, jb *job, no, G, P, size int, mix string) *roundOut {
 			}()
 		}
 	}
+	sb := takeState()
 	start := make(chan struct{})
 	var wg sync.WaitGroup
 	for g := 0; g < G; g++ {
@@ -925,6 +928,11 @@ func runRound(w *world, jb *job, no, G, P, size int, mix string) *roundOut {
 	}
 	close(start)
 	wg.Wait()
+	settle(sb.goroutines)
+	sa := takeState()
+	ro.Fails = append(ro.Fails, stateDiff(sb, sa, fmt.Sprintf("round of %d goroutines, GOMAXPROCS=%d, payload %d, mix %s", G, P, size, mix),
+		map[string]any{"rep": jb.Rep, "round": no, "goroutines": G, "gomaxprocs": P, "payload": size, "mix": mix})...)
+	ro.GoroutinesAfter, ro.FDsAfter = sa.goroutines, sa.fds
 	runtime.GOMAXPROCS(jb.Full)
 	t2 := time.Now()
 
@@ -1213,6 +1221,7 @@ func runChild(jobPath string) {
 	enc := json.NewEncoder(bw)
 	w := newWorld(jb.Seed)
 	no := 0
+	var gSeries, fdSeries []int
 	for pi := range jb.Ps {
 		// repetitions start at different GOMAXPROCS so that concurrently
 		// running repetitions do not all sit in their 2-processor phase
@@ -1223,6 +1232,7 @@ func runChild(jobPath string) {
 			for _, G := range jb.Gs {
 				for _, mix := range jb.Mixes {
 					ro := runRound(w, &jb, no, G, P, size, mix)
+					gSeries, fdSeries = append(gSeries, ro.GoroutinesAfter), append(fdSeries, ro.FDsAfter)
 					enc.Encode(ro)
 					bw.Flush()
 					no++
@@ -1235,7 +1245,8 @@ func runChild(jobPath string) {
 	bpools := buildHetero(w.hk, mon.NewRNG(jb.Seed, "c20/burst/pool"), false)
 	burst := runBurst(w.hk, bpools, jb.Seed, fmt.Sprintf("race-rep%d", jb.Rep), 8, map[string]int{"X": 100, "E": 40, "R": 8})
 	cons := runConstruct(w.hk, jb.Seed, fmt.Sprintf("race-rep%d", jb.Rep))
-	enc.Encode(&roundOut{Done: true, Rounds: no, Rep: jb.Rep, Burst: burst, Construct: cons})
+	enc.Encode(&roundOut{Done: true, Rounds: no, Rep: jb.Rep, Burst: burst, Construct: cons,
+		Fails: append(growthFails("goroutines", gSeries, "race-enabled child, one sample per round"), growthFails("open-files", fdSeries, "race-enabled child, one sample per round")...)})
 	bw.Flush()
 	f.Close()
 	os.Exit(0)
